@@ -44,7 +44,7 @@ def is_range(e):
     return e[0] == "agg" and e[2].endswith("Range::Range") and len(e[3]) == 2
 
 
-def sym_item(e, bounds=None):
+def sym_item(e, bounds=None, prog=None):
     """symbolic item of iterator expression e, or None.  `bounds` collects (kind, expr) of every constituent so that the
     caller can check coverage (ranges: ('range', lo, hi); collections: ('coll', C))"""
     if bounds is None:
@@ -60,29 +60,58 @@ def sym_item(e, bounds=None):
     n, a = e[4], e[2]
     if n in ITER_SRC and len(a) == 1:
         x = a[0]
-        if is_range(x) or (x[0] == "call" and x[4] in ITER_SRC + ("enumerate", "zip", "copied", "cloned", "take")):
-            return sym_item(x, bounds)          # IntoIterator of an iterator is the identity
+        if is_range(x) or (x[0] == "call" and x[4] in ITER_SRC + ("enumerate", "zip", "copied", "cloned", "take", "map")):
+            return sym_item(x, bounds, prog)          # IntoIterator of an iterator is the identity
         bounds.append(("coll", x))
         return ("index", x, I)
     if n == "enumerate" and len(a) == 1:
-        s = sym_item(a[0], bounds)
+        s = sym_item(a[0], bounds, prog)
         return None if s is None else ("agg", "tuple", "", (I, s), ())
     if n == "zip" and len(a) == 2:
-        s0 = sym_item(a[0], bounds)
+        s0 = sym_item(a[0], bounds, prog)
         y = a[1]
-        if not (is_range(y) or (y[0] == "call" and y[4] in ITER_SRC + ("enumerate", "zip", "copied", "cloned", "take"))):
+        if not (is_range(y) or (y[0] == "call" and y[4] in ITER_SRC + ("enumerate", "zip", "copied", "cloned", "take", "map"))):
             y = ("call", "", (y,), None, "into_iter")
-        s1 = sym_item(y, bounds)
+        s1 = sym_item(y, bounds, prog)
         return None if s0 is None or s1 is None else ("agg", "tuple", "", (s0, s1), ())
     if n in ("copied", "cloned") and len(a) == 1:
-        return sym_item(a[0], bounds)
+        return sym_item(a[0], bounds, prog)
+    if n == "map" and len(a) == 2 and prog is not None and a[1][0] == "agg" and a[1][1] == "closure":
+        # a per-element projection: the item is the closure's result on the inner item (order and length untouched)
+        s = sym_item(a[0], bounds, prog)
+        if s is None:
+            return None
+        from .cfg import closure_apply
+        body = closure_apply(prog, a[1], [s])
+        if body is None:
+            return None
+        return _collapse(body)
     if n == "take" and len(a) == 2:
         # the first k elements, still in order and in lock step: the caller must judge ("take", k) for coverage
-        s = sym_item(a[0], bounds)
+        s = sym_item(a[0], bounds, prog)
         if s is not None:
             bounds.append(("take", a[1]))
         return s
     return None
+
+
+def _collapse(e):
+    """field k of a tuple literal -> its operand k (recursively)"""
+    if not isinstance(e, tuple) or not e or not isinstance(e[0], str):
+        return e
+    out = []
+    for x in e:
+        if isinstance(x, tuple):
+            if x and isinstance(x[0], str):
+                out.append(_collapse(x))
+            else:
+                out.append(tuple(_collapse(y) if isinstance(y, tuple) else y for y in x))
+        else:
+            out.append(x)
+    r = tuple(out)
+    if r[0] == "field" and r[1][0] == "agg" and r[1][1] == "tuple" and r[2].isdigit() and int(r[2]) < len(r[1][3]):
+        return r[1][3][int(r[2])]
+    return r
 
 
 def loop_item(q, next_call):
@@ -91,7 +120,7 @@ def loop_item(q, next_call):
     if e is None:
         return None, []
     bounds = []
-    s = sym_item(e, bounds)
+    s = sym_item(e, bounds, q.w.prog)
     return s, bounds
 
 
